@@ -57,7 +57,11 @@ def main():
     except Exception as e:  # noqa
         print("cannot load the real history_comparisons.py:", repr(e))
         return 3
-    n = bad = 0
+    n = bad = bad_raise_only = 0
+    first_raise = None
+    vout = None
+    if "--violation-out" in sys.argv:
+        vout = sys.argv[sys.argv.index("--violation-out") + 1]
     for line in sys.stdin:
         line = line.strip()
         if not line:
@@ -79,9 +83,20 @@ def main():
         n += 1
         if got != c["expect"]:
             bad += 1
+            # the real code RAISES on an edge comparison for which the model has an answer: in production
+            # StrategyForPython turns that into a panic of the evaluator (the defect class of fix 09348e0)
+            if got == "raise" and c["down_inputs"] is not None:
+                bad_raise_only += 1
+                if first_raise is None:
+                    first_raise = c
             if bad <= 5:
                 print("DISAGREEMENT:", json.dumps(c), "real code says", got)
     print(f"comparison stub vs real history_comparisons.py: {n} cases, {bad} disagreements")
+    if bad and bad == bad_raise_only and vout:
+        with open(vout, "w") as f:
+            json.dump({"property": "C06", "cmp_case": first_raise, "clause": "comparison-callback-raises",
+                       "message": "history_comparisons.history_is_different raises on a dependency comparison (the evaluator panics: 'History comparison failed on python side')"}, f, indent=1)
+        return 4
     return 1 if bad else 0
 
 sys.exit(main())
